@@ -405,6 +405,54 @@ class Program:
         return [n for st in f.body for n in walk_no_nested(st) if isinstance(n, ast.Call)]
 
 
+def _immutable_expr(v: ast.AST) -> bool:
+    """Literal / compiled-regex / tuple or frozenset of such: a module-level constant, not state."""
+    if isinstance(v, ast.Constant):
+        return True
+    if isinstance(v, ast.Tuple):
+        return all(_immutable_expr(e) for e in v.elts)
+    if isinstance(v, ast.UnaryOp) and isinstance(v.operand, ast.Constant):
+        return True
+    if isinstance(v, ast.Name):
+        return True        # alias of another binding (a type such as int, or another constant)
+    if isinstance(v, ast.Call):
+        fn = unparse(v.func)
+        if fn in ("re.compile", "frozenset", "tuple") and all(_immutable_expr(a) or isinstance(a, (ast.List, ast.Set)) and
+                                                              all(_immutable_expr(e) for e in a.elts) for a in v.args) \
+                and all(_immutable_expr(k.value) for k in v.keywords):
+            return True
+    if isinstance(v, ast.BinOp):
+        return _immutable_expr(v.left) and _immutable_expr(v.right)
+    if isinstance(v, ast.Attribute):
+        return True        # re.IGNORECASE, module attribute
+    return False
+
+
+def module_binding(prog: "Program", module: str, name: str):
+    """How `name` is bound at the top level of `module`: ('constant', value node) | ('mutable', value node) | ('function', None) |
+    ('class', None) | ('import', None) | None (not bound there: builtin)."""
+    m = prog.modules.get(module)
+    if m is None:
+        return None
+    kind = None
+    for st in m.tree.body:
+        if isinstance(st, (ast.FunctionDef, ast.AsyncFunctionDef)) and st.name == name:
+            kind = ("function", None)
+        elif isinstance(st, ast.ClassDef) and st.name == name:
+            kind = ("class", None)
+        elif isinstance(st, (ast.Import, ast.ImportFrom)) and any((a.asname or a.name.split(".")[0]) == name for a in st.names):
+            kind = ("import", None)
+        elif isinstance(st, ast.Assign) and any(isinstance(t, ast.Name) and t.id == name for t in st.targets):
+            kind = ("constant", st.value) if _immutable_expr(st.value) and kind in (None,) else ("mutable", st.value)
+        elif isinstance(st, ast.AnnAssign) and isinstance(st.target, ast.Name) and st.target.id == name and st.value is not None:
+            kind = ("constant", st.value) if _immutable_expr(st.value) and kind in (None,) else ("mutable", st.value)
+        elif isinstance(st, (ast.If, ast.Try, ast.With, ast.For, ast.While)):
+            for n in ast.walk(st):
+                if isinstance(n, ast.Name) and n.id == name and isinstance(n.ctx, ast.Store):
+                    kind = ("mutable", st)
+    return kind
+
+
 def load_repo(repo: str) -> Program:
     return Program.from_dir(os.path.join(repo, "src", "serif"))
 
